@@ -52,7 +52,8 @@ def active() -> bool:
 
 
 class Ctx:
-    def __init__(self, prefix=(), timeout_ms=120000, fork_indices=True, loop_bound=64):
+    def __init__(self, prefix=(), timeout_ms=120000, fork_indices=True, loop_bound=64, max_cp=0xFF,
+                 max_digits=6, buf_cap=8):
         self.solver = z3.Solver()
         self.solver.set("timeout", timeout_ms)
         self.prefix = list(prefix)
@@ -64,6 +65,9 @@ class Ctx:
         self.model = None  # a model of everything asserted so far, or None
         self.fork_indices = fork_indices
         self.loop_bound = loop_bound
+        self.max_cp = max_cp
+        self.max_digits = max_digits
+        self.buf_cap = buf_cap
         self.ndecisions = 0
         self.notes = []
         self.inputs = {}  # name -> symbolic input object, for model extraction
